@@ -34,13 +34,39 @@ def pyEqLookup (k : Str) (v : Json) : List (Str × Json) → Bool
   | (k', v') :: ys => if k' = k then pyEq v v' else pyEqLookup k v ys
 end
 
-/-- `unbool`-ed comparison: a *top-level* boolean equals only the same boolean. -/
-def equal (a b : Json) : Bool :=
+/-- `unbool(a) == unbool(b)` for values that are not both lists / both dicts: a boolean
+    equals only the same boolean, everything else is Python `==` -/
+def unboolEq (a b : Json) : Bool :=
   match a, b with
   | .bool x, .bool y => x == y
   | .bool _, _ => false
   | _, .bool _ => false
   | _, _ => pyEq a b
+
+mutual
+/-- `_utils.equal`: recurses into arrays and objects so that booleans never equal numbers
+    at any depth -/
+def equal : Json → Json → Bool
+  | .arr xs, .arr ys => equalList xs ys
+  | .obj xs, .obj ys => xs.length == ys.length && equalKvs xs ys
+  | .null, .null => true
+  | .bool a, .bool b => a == b
+  | .num a, .num b => Num.eq a b
+  | .str a, .str b => a == b
+  | _, _ => false
+/-- `len(one) == len(two) and all(equal(i, j) for i, j in zip(one, two))` -/
+def equalList : List Json → List Json → Bool
+  | [], [] => true
+  | x :: xs, y :: ys => equal x y && equalList xs ys
+  | _, _ => false
+/-- `all(key in two and equal(value, two[key]) for key, value in one.items())` -/
+def equalKvs : List (Str × Json) → List (Str × Json) → Bool
+  | [], _ => true
+  | (k, v) :: xs, ys => equalLookup k v ys && equalKvs xs ys
+def equalLookup (k : Str) (v : Json) : List (Str × Json) → Bool
+  | [] => false
+  | (k', v') :: ys => if k' = k then equal v v' else equalLookup k v ys
+end
 
 /-- Python truthiness -/
 def truthy : Json → Bool
@@ -60,26 +86,20 @@ def hashable : Json → Bool
   | .obj _ => false
   | _ => true
 
-/-- is some earlier element `equal` to a later one -/
+/-- is some earlier element `equal` to a later one (brute-force path) -/
 def hasDup : List Json → Bool
   | [] => false
   | x :: xs => xs.any (equal x) || hasDup xs
 
-/-- neighbours of a list compared with `equal` (sort path of `uniq`) -/
-def adjDup : List Json → Bool
-  | x :: y :: rest => equal x y || adjDup (y :: rest)
-  | _ => false
+/-- the same with the `set`'s notion of sameness on `unbool`-ed hashable elements -/
+def hasDupHash : List Json → Bool
+  | [] => false
+  | x :: xs => xs.any (unboolEq x) || hasDupHash xs
 
-/-- `_utils.uniq`: `some true` = all unique. The sort path consults the `sorted` oracle:
-    `sortPerm xs = some none` is `TypeError`, `some (some p)` the permutation. -/
-def uniq (sortPerm : List Json → Option (Option (List Nat))) (xs : List Json) : Option Bool :=
-  if xs.all hashable then
-    some (!hasDup xs)                          -- `len(set(...)) == len(container)`
-  else
-    match sortPerm xs with
-    | none => none                             -- oracle miss
-    | some (some p) => some (!adjDup (p.filterMap (xs[·]?)))
-    | some none => some (!hasDup xs)           -- brute force: `e in seen`
+/-- `_utils.uniq`: the hash path (`len(set(unbool(i) …)) == len(container)`, taken iff every
+    element is hashable) and the brute-force path (`any(equal(e, i) for i in seen)`) -/
+def uniq (xs : List Json) : Bool :=
+  if xs.all hashable then !hasDupHash xs else !hasDup xs
 
 /-! ### type predicates (`_types.py`) -/
 
